@@ -562,6 +562,7 @@ class Interp:
         n["enumerate"] = Native("enumerate", lambda i, a, k: list(enumerate(
             self._as_list(a[0]), self._concrete_int(a[1] if len(a) > 1 else k.get("start", 0)))))
         n["type"] = Native("type", self._type)
+        n["NotImplemented"] = NativeObj("NotImplemented")
         n["property"] = Native("property", lambda i, a, k: PropertyVal(
             *a[:3], **{{"fget": "get", "fset": "set", "fdel": "delete"}.get(kk, kk): vv
                       for kk, vv in k.items() if kk != "doc"}))
@@ -1328,6 +1329,9 @@ class Interp:
             def opq(x):
                 return is_opaque(x) or (isinstance(x, Obj) and is_opaque(x.strval)) or \
                     (isinstance(x, (list, tuple)) and any(opq(y) for y in x))
+            if any(isinstance(x, Unknown) for x in a) or any(isinstance(x, Unknown) for x in k.values()):
+                raise Unsupported(f"str.{name} with an argument the interpreter does not know "
+                                  f"({[x.why for x in list(a) + list(k.values()) if isinstance(x, Unknown)][0]})")
             if any(opq(x) for x in a) or any(opq(x) for x in k.values()):
                 if name in Interp._STR_TRANSFORM:
                     return OpaqueBytes("text") if isinstance(o, bytes) else OpaqueStr("text")
@@ -1624,6 +1628,13 @@ class Interp:
             return type(x)(x)
         if isinstance(x, Obj):
             if x.cls is not None:
+                own = self.model.lookup_method(x.cls, "__deepcopy__" if deep else "__copy__")
+                if own is not None:
+                    # the class says how it is copied: interpret that
+                    pm = memo.setdefault("__py_memo__", {})
+                    r = self.call(Bound(Closure(own), x), [pm] if deep else [], {})
+                    memo[id(x)] = r
+                    return r
                 for special in ("__copy__", "__deepcopy__", "__reduce__", "__reduce_ex__",
                                 "__getstate__", "__setstate__"):
                     if self.model.lookup_method(x.cls, special) is not None:
@@ -1640,6 +1651,14 @@ class Interp:
             n.attrs = {k: (self._copy(v, True, memo) if deep else v) for k, v in x.attrs.items()}
             return n
         raise Unsupported(f"copy of {x!r}")
+
+    def _counter(self, i, a, k):
+        """collections.Counter over concrete (hashable Python) items."""
+        import collections as _c
+        if k or len(a) > 1:
+            raise Unsupported("Counter(...) with keywords")
+        items = self._as_list(a[0]) if a else []
+        return _c.Counter(self._memo_key(x) for x in items)
 
     def _namedtuple(self, i, a, k):
         name = self._str(a[0])
@@ -2932,6 +2951,13 @@ class Interp:
                     return NativeObj("copy")
                 if r[1] in ("collections.namedtuple",):
                     return Native("namedtuple", self._namedtuple)
+                if r[1].startswith("codecs.BOM"):
+                    import codecs as _codecs
+                    v = getattr(_codecs, r[1].split(".", 1)[1], None)
+                    if isinstance(v, bytes):
+                        return v
+                if r[1] == "collections.Counter":
+                    return Native("Counter", self._counter)
                 if r[1] in ("itertools", "functools", "operator", "collections"):
                     return NativeObj(r[1])
                 if r[1].startswith(("itertools.", "functools.", "operator.")):
